@@ -44,6 +44,11 @@ NoticeVerdict(notice, failed, pfx, dupok) ==
      ELSE IF \E a \in failed : ~\E s \in Spellings(a, pfx) : Heading(s) \in heads THEN "FailedRecipientNotNamed"
      ELSE ""
 
+\* reports are truncated to REPORTMAX bytes by the queue manager before anything is done with them: no recipient paragraph
+\* of a notice is longer than that plus its heading and the fixed sentence added to an expired temporary failure
+REPORTMAX == 10000
+OversizedParagraph(notice) == LET rp == RcptParas(notice) IN \E k \in 1..Len(rp) : Len(rp[k]) > REPORTMAX + 600
+
 (***************************************************************************)
 (* P: addbounce(id, recip, report): "<" recip ">:\n" report [\n] with LF   *)
 (* in the address replaced by '_' and every second LF of a run replaced by *)
